@@ -37,6 +37,8 @@ for sid in sorted(os.listdir(os.path.join(root, 'seeded'))):
         vs = sorted(set(v.split(':', 1)[1] if ':' in v else v for v in det['violations']))
         hs = sorted(set(v.split(':', 1)[0].replace('VerifHarness_', '') for v in det['violations']))
         how = 'caught: ' + ', '.join(hs[:3]) + ' (' + ', '.join(vs[:2]) + ')'
+        if meta.get('first_sweep_exit') == 0:
+            how = 'missed at first, ' + how.replace('caught:', 'caught after the check was strengthened:')
     elif meta.get('last_sweep_exit') is None:
         how = 'not swept yet'
     else:
@@ -46,8 +48,11 @@ tab = ['| seeded change | property | what (from the sub-agent\'s notes) | quick 
 for r in rows:
     tab.append('| `%s` | %s | %s | %s |' % r)
 caught = sum(1 for r in rows if r[3].startswith('caught'))
-summary = '%d confirmed seeded changes, %d caught by the quick check of their property, %d missed, %d not swept.' % (
-    len(rows), caught, sum(1 for r in rows if r[3].startswith('MISSED')), sum(1 for r in rows if r[3].startswith('not swept')))
+later = sum(1 for r in rows if r[3].startswith('missed at first'))
+summary = ('%d confirmed seeded changes: %d caught by the quick check of their property as it stood when the batch was swept '
+           '(batches -a to -c were swept again on the final tree after their misses had been closed), %d caught after the check was strengthened '
+           '(each verified with tools/mutcheck.sh), %d not caught, %d not swept.') % (
+    len(rows), caught, later, sum(1 for r in rows if r[3].startswith('MISSED')), sum(1 for r in rows if r[3].startswith('not swept')))
 dp = os.path.join(root, 'DESIGN.md')
 d = open(dp).read()
 start = d.index('## 11. Seeded changes and which checks catch them')
@@ -57,9 +62,10 @@ intro = '''## 11. Seeded changes and which checks catch them
 Each change was written by a fresh sub-agent that was given only the text of one property and its own scratch
 worktree (nothing from /verif), and was kept only after `tools/confirm_mut.sh` had confirmed, in another scratch
 worktree of the current `/repo` HEAD, that the demonstration passes without the change and fails with it and that
-the whole existing suite still passes with it.  Four batches were produced (`-a`, `-b`, `-c`, `-d`; the third and
-fourth with the request to prefer the less obvious code paths, both stacks and both roles; the fourth for the seven
-properties that had the fewest changes).  After the last `fix:` commit all of
+the whole existing suite still passes with it.  Five batches were produced (`-a` … `-e`; from the third on with the
+request to prefer the less obvious code paths, both stacks, both roles, configuration-dependent behaviour and
+interactions between features; the fourth for the seven properties that had the fewest changes, the fifth for the
+other twelve).  After the last `fix:` commit all of
 them were confirmed again against the repaired tree (`tools/reconfirm_all.sh`).  Changes whose patch no longer
 applied after a `fix:` commit were re-made by hand at the same site and confirmed again; demonstrations that relied
 on behaviour a fix removed (the stock client remembering the session of a failed handshake; the one-timeout stall
@@ -73,6 +79,13 @@ replay window: it is filed, and swept, under C16.  `tools/mutsweep.sh` applies e
 runs the quick check of its property there (`VERIF_REPO`); `/repo` is never touched.
 
 SUMMARY
+
+First exposure, i.e. each batch against the checks as they stood when the batch arrived: batch a 29 of 36 caught,
+b 22 of 32, c 14 of 24, d 12 of 14, e 18 of 24 — 95 of 130; the misses were analysed one by one and are listed after
+the table with what was added for each.  The rate did not rise from batch to batch because each batch was asked
+for less obvious changes than the one before; what the later batches found were mostly obligations that a harness
+already exercised but asserted under another property's name, over-constrained pre-states, and situations no
+harness produced (a transport reporting EOF with the last bytes, a receiver that had half-closed, an address filter).
 
 TABLE
 
@@ -92,7 +105,13 @@ block boundary (C06-c1), evicted identifiers under C10 (C10-b1), close_notify co
 decoders consume the whole slice (C14-b2), fragment flood under C17 (C17-b2), empty non-nil cookie secret (C18-b2),
 duplicate suppression and fragment reordering under C19 (C19-b2, C19-c2); after the fourth batch: peer identity of
 a resumed connection with and without verification (C10-d2), the datagram source-address filter that the cookie
-binding rests on (C18-d1; this needed a model of `(net.IP).String` on concrete addresses in the engine).  Not caught and not catchable by this
+binding rests on (C18-d1; this needed a model of `(net.IP).String` on concrete addresses in the engine); after the
+fifth batch: the negotiation oracle now works on a copy of the configuration taken before the call — the change
+corrupted the caller's suite list in place and the oracle, reading the list afterwards, agreed with it (C01-e2) —,
+the record limit on the datagram stack under C06 (C06-e1), a session handed out by a lookup survives later cache
+operations (C11-e1), a transport that reports EOF together with the last bytes (C12-e1), a warning-alert flood on
+the datagram stack stays fatal (C12-e2), an early ChangeCipherSpec is accepted when retransmitted in turn (C19-e1).
+Not caught and not catchable by this
 technique: `C11-C11-c2` (a read-lock fast path in the session cache that is wrong only under a concurrent eviction:
 every sequential history is correct; goroutine schedules are outside the engine, see C13 in section 8).
 
